@@ -354,12 +354,34 @@ def alias_table(cls):
     raise Tx("stopping_criterion_aliases not found")
 
 
-_RESOLVE_TEMPLATE = """
-for c in stopping_criterion:
-    for criterion, aliases in self.stopping_criterion_aliases.items():
-        if c in aliases:
-            self.stopping_criterion.append(criterion)
-"""
+def resolve_loop(stmt):
+    """the two nested loops that resolve the aliases → which loop is the OUTER one ("names" or "table").
+        for c in stopping_criterion:                                   (names-major: result in the user's order)
+            for criterion, aliases in self.stopping_criterion_aliases.items():
+                if c in aliases: self.stopping_criterion.append(criterion)
+    or the same two loops nested the other way round (table-major: result in alias-table order)."""
+    def kind(f):
+        if not isinstance(f, ast.For) or f.orelse:
+            return None
+        if _u(f.iter) == "stopping_criterion" and isinstance(f.target, ast.Name):
+            return "names", f.target.id
+        if _u(f.iter) == "self.stopping_criterion_aliases.items()" and isinstance(f.target, ast.Tuple) \
+                and len(f.target.elts) == 2 and all(isinstance(e, ast.Name) for e in f.target.elts):
+            return "table", (f.target.elts[0].id, f.target.elts[1].id)
+        return None
+    ko = kind(stmt)
+    if ko is None or len(stmt.body) != 1:
+        raise Tx("configure_stopping_criterion: alias resolution is not a loop over the names / the alias table: " + _u(stmt).split("\n")[0])
+    ki = kind(stmt.body[0])
+    if ki is None or ki[0] == ko[0] or len(stmt.body[0].body) != 1:
+        raise Tx("configure_stopping_criterion: inner alias-resolution loop: " + _u(stmt.body[0]).split("\n")[0])
+    both = dict([ko, ki])
+    c, (crit, aliases) = both["names"], both["table"]
+    inner = stmt.body[0].body[0]
+    if not (isinstance(inner, ast.If) and not inner.orelse and _u(inner.test) == f"{c} in {aliases}" and len(inner.body) == 1
+            and _u(inner.body[0]) == f"self.stopping_criterion.append({crit})"):
+        raise Tx("configure_stopping_criterion: alias test / append: " + _u(inner).split("\n")[0])
+    return ko[0]
 
 
 def configure_stopping(fn):
@@ -370,11 +392,11 @@ def configure_stopping(fn):
         "if isinstance(stopping_criterion, str):\n    stopping_criterion = [stopping_criterion]",
         "if isinstance(tolerance, list):\n    self.tolerance = [float(t) for t in tolerance]\nelse:\n    self.tolerance = [float(tolerance)]",
         "self.stopping_criterion = []",
-        _u(ast.parse(_RESOLVE_TEMPLATE).body[0]),
     ]
-    if texts[:4] != want_head:
-        k = next(i for i in range(4) if i >= len(texts) or texts[i] != want_head[i])
+    if texts[:3] != want_head or len(body) < 4:
+        k = next((i for i in range(3) if i >= len(texts) or texts[i] != want_head[i]), 3)
         raise Tx("configure_stopping_criterion: statement %d differs from the modelled one: %s" % (k, texts[k].split("\n")[0] if k < len(texts) else "<missing>"))
+    outer = resolve_loop(body[3])
     checks, stop_any, init_inf = [], None, False
     for s, t in zip(body[4:], texts[4:]):
         if isinstance(s, ast.If) and len(s.body) == 1 and isinstance(s.body[0], ast.Raise) and not s.orelse:
@@ -402,7 +424,7 @@ def configure_stopping(fn):
             raise Tx("configure_stopping_criterion: unmodelled statement `" + t.split("\n")[0] + "`")
     if stop_any is None or not init_inf:
         raise Tx("configure_stopping_criterion: _stop_any / initial criterion assignment missing")
-    return dict(checks=checks, stop_any=stop_any, lines=(fn.lineno, fn.end_lineno))
+    return dict(checks=checks, stop_any=stop_any, outer=outer, lines=(fn.lineno, fn.end_lineno))
 
 
 def _lean_strs(xs):
@@ -528,9 +550,11 @@ def cfgMaxIteration : Option Int → Cap
 /-- `stopping_criterion_aliases` -/
 def aliasTable : List (String × List String) :=
   [{table}]
+/-- `configure_stopping_criterion`, the alias-resolution loops: the OUTER loop runs over {"the user's names (result in the user's order)" if d['cfg_sc']['outer'] == 'names' else "the alias table (result in TABLE order)"} -/
+def resolve (names : List String) : List String := {"resolveNames" if d['cfg_sc']['outer'] == 'names' else "resolveNamesTableMajor"} aliasTable names
 /-- `configure_stopping_criterion`: resolved criteria and `_stop_any`, or the first error raised -/
 def configureStopping (names : List String) (nTol : Nat) (check : String) : Except CfgErr (List String × Bool) :=
-  let sc := resolveNames aliasTable names
+  let sc := resolve names
 {chain}  .ok (sc, {d['cfg_sc']['stop_any']})
 
 end NessaiVerif.Gen.Loops
